@@ -9,9 +9,14 @@ FILES = ["Engine/Toposort.v", "Engine/ToposortProof.v", "Engine/Tagged.v", "Engi
          "Engine/TowerProof.v", "Props/C07.v"]
 RULE = ("for random operator-free bodies, every one of the 2^k sequences of reverse/forward operators of order "
         "k=2..4 with respect to one variable, plus random nested programs of differentiation depth >= 2; distinct "
-        "by program text; non-trivial when order >= 2 and the k-th derivative is not identically zero")
+        "by program text; non-trivial when order >= 2 and the k-th derivative is not identically zero.  Built-in "
+        "primitives: every call configuration of the rule table (half of it in the quick tier) plus special-value "
+        "configurations (exponents/operands exactly 0, 1, 2; identity and zero matrices), second derivative of a "
+        "generic-cotangent scalarisation and of a zero-residual least-squares scalarisation (cotangent exactly 0, "
+        "H = J^T J) by rev-over-rev, fwd-over-rev, rev-over-fwd, fwd-over-fwd; compared with each other, with the "
+        "truth (Richardson difference of the first-order gradient; J^T(J v)), and for Hessian symmetry")
 TRUST = ["the formal function F and its derivative family are realised in Python as user primitives F[n](x) = d^n/dx^n x^6 whose rules call F[n+1]"]
-ASSUMPTIONS = ["scalar programs over +,-,*,neg,F; built-in array primitives at higher order are not in this model"]
+ASSUMPTIONS = ["the Coq model covers scalar programs over +,-,*,neg,F; built-in array primitives at second order are covered by the implementation-side oracle only (orders >= 3 of built-ins: only through the engine model)"]
 
 
 def towers(seed, n_bodies, kmax):
@@ -35,6 +40,15 @@ def run(res, tier, seed, broken):
     for e in (err, e2):
         if e:
             broken = broken + [{"obligation": "implementation side failed to run", "log": e[-3000:]}]
+    # built-in primitives: second derivatives by all four mode sequences over the rule table
+    out, e3 = C.run_impl("impl_c07np.py", {"seed": seed, "tier": tier, "fraction": 0.5}, timeout=1500)
+    if out is None:
+        broken = broken + [{"obligation": "second-order oracle over the primitive table failed to run", "log": (e3 or "")[-3000:]}]
+    else:
+        res.add_cases(out["n"], out["keys"], out["samples"][:1])
+        for k, v in out["dist"].items():
+            res.count("np2:" + k, v)
+        bad = bad + out["bad"]
 
     def hunt():
         for k in range(6 if big else 2):
@@ -49,7 +63,7 @@ def run(res, tier, seed, broken):
 
 
 replay = __import__("harness.props.c08", fromlist=["replay"]).replay
-TECHNIQUE = "Coq: Hessian symmetry theorem on the tower spec + model of the engine in which rule bodies are traced programs; exact three-way correspondence over all 2^k mode sequences, k=2..4"
+TECHNIQUE = "Coq: Hessian symmetry theorem on the tower spec + model of the engine in which rule bodies are traced programs; exact three-way correspondence over all 2^k mode sequences, k=2..4; second-order four-sequence oracle over the whole primitive configuration table incl. zero-cotangent and special-value points"
 DESIGN_REF = "DESIGN.md 4.7"
 LEVEL_TEXT = ("Proved: mixed partials commute for every operator-free body in the specification semantics, and nested "
               "operators compute that Hessian entry (partial: the equality model = spec for all orders is tied by "
